@@ -45,6 +45,9 @@ def main():
         name='%s-%s'%(r['property'], r['seed'])
         src=os.path.join(SEED, r['property']+'.out', r['seed'])
         d=os.path.join(DST,name)
+        old = None
+        if os.path.exists(os.path.join(d, 'meta.json')):
+            old = json.load(open(os.path.join(d, 'meta.json')))
         if os.path.isdir(d): shutil.rmtree(d)
         os.makedirs(d)
         for root,dirs,files in os.walk(src):
@@ -66,6 +69,9 @@ def main():
                                'demo_exit_pristine': r['pristine_demo_rc'], 'demo_exit_with_change': r['mutated_demo_rc'],
                                'demo_tail_with_change': r.get('mutated_demo_tail','')[-400:]},
               'caught_by_checks': [], 'missed_by_checks': []}
+        if old:
+            for k in ('caught_by_checks', 'caught_by_rules', 'missed_by_checks', 'applies_to_current_tree'):
+                if k in old: meta[k] = old[k]
         json.dump(meta, open(os.path.join(d,'meta.json'),'w'), indent=1)
         print('imported', name)
 main()
